@@ -302,7 +302,7 @@ func c01XE2E(c *lab.Ctx) {
 		c.Require("mosn started", false, err.Error())
 		return
 	}
-	nCases := c.Pick(2000, 20000)
+	nCases := c.Pick(6000, 20000)
 	var wg sync.WaitGroup
 	var okMu sync.Mutex
 	okExchanges := map[string]int{}
